@@ -251,3 +251,34 @@ def _show(s):
 
 def tokens_in(s):
     return [int(k) for k in PH.findall(s)]
+
+
+# ---------------------------------------------------------------------------
+# exact, signed tokens for report readers (no sign fork)
+# ---------------------------------------------------------------------------
+
+def exact(v):
+    """Text for one number of a report: a placeholder carrying the signed symbolic value, or the
+    repr of a concrete number."""
+    if is_sym(v):
+        if isinstance(v, SC):
+            raise HarnessError('exact token of a complex value')
+        return _register(v, 'x', None, exact=True)
+    return repr(float(v))
+
+
+def read_exact(s):
+    """Value of a text produced by exact()."""
+    s = s.strip()
+    m = PH.fullmatch(s)
+    if m:
+        t = ctx().tokens[int(m.group(1))]
+        if t['conv'] != 'x':
+            raise HarnessError('read_exact on a %r token' % t['conv'])
+        return t['mag']
+    return float(s)
+
+
+def format_float_stub(floats, use_e=0):
+    """Token-producing replacement of util.format_float outside C19 (DESIGN 2.6)."""
+    return tuple(exact(f) for f in floats)
